@@ -985,11 +985,12 @@ def m_prim_arith(I, ctx, callee, args, crate):
     raise Panic(f"{ty} arithmetic overflow")
 
 
-@M.on(r"^(core::num::<impl (u8|u16|u32|u64|u128|usize)>|u8|u16|u32|u64|u128|usize)::(checked_add|checked_sub|checked_mul|checked_div|saturating_sub|saturating_add|saturating_mul|wrapping_add|wrapping_sub|pow|min|max|abs_diff|is_power_of_two|overflowing_add|overflowing_sub|from_be_bytes|to_be_bytes|from_le_bytes|to_le_bytes|leading_zeros|trailing_zeros|count_ones|MAX|MIN)$")
+@M.on(r"^(core::num|core::num::<impl (u8|u16|u32|u64|u128|usize)>|u8|u16|u32|u64|u128|usize)::(checked_add|checked_sub|checked_mul|checked_div|saturating_sub|saturating_add|saturating_mul|wrapping_add|wrapping_sub|pow|min|max|abs_diff|is_power_of_two|overflowing_add|overflowing_sub|from_be_bytes|to_be_bytes|from_le_bytes|to_le_bytes|leading_zeros|trailing_zeros|count_ones|MAX|MIN)$")
 def m_prim_checked(I, ctx, callee, args, crate):
     n = strip_generics(callee)
     meth = n.split("::")[-1]
-    m = re.search(r"(u8|u16|u32|u64|u128|usize)", n)
+    m = re.search(r"(u8|u16|u32|u64|u128|usize)", callee)
+    if m is None: raise Unsupported(f"integer width of {callee}")
     hi = INTMAX[m.group(1)]
     a = I.deref(ctx, args[0])
     if meth in ("to_be_bytes", "to_le_bytes", "from_be_bytes", "from_le_bytes"):
